@@ -184,3 +184,13 @@ Definition aac_ser_layout : list (list (Z * Z * Z * Z * Z)) :=
 
 Definition eval_shape_masked (data fields : list Z) (shape : list (list (Z * Z * Z * Z * Z))) (outer : list Z) : list Z :=
   map (fun rm => Z.land (eval_row data fields (fst rm)) (snd rm)) (combine shape outer).
+
+(* ---- DataElementParser._list_from_bytes: its exit paths in source order,
+   (0 = return | 1 = raise, after `self.depth += 1`, after `self.depth -= 1`).
+   Model/CodecsSdpState.sparse_next has exactly these: the nesting-limit raise before the
+   increment, the overrun raise inside the loop (counter not restored: the parse is abandoned),
+   and the single return after the decrement. *)
+Definition sdp_list_exits_layout : list (Z * Z * Z) := [(1, 0, 0); (1, 1, 0); (0, 1, 1)].
+(* every RETURN that follows the increment also follows the decrement *)
+Definition exits_restore_depth (exits : list (Z * Z * Z)) : bool :=
+  forallb (fun x => let '(k, inc, dec) := x in orb (orb (k =? 1) (inc =? 0)) (dec =? 1)) exits.
